@@ -70,6 +70,14 @@ func init() {
 										// operation than the scenario's (it has diverged from it) - nothing is injected
 										continue
 									}
+									if f.kind == "vanish" {
+										// not a failure: the key disappears just before the write is executed, the write answers as usual
+										if cmd.Op == "set" {
+											w.mr.Del(cmd.Key)
+											fired = append(fired, cmd.Op+":vanish")
+										}
+										return nil
+									}
 									fired = append(fired, cmd.Op+":"+f.kind)
 									pendingFail[cmd.Op+" "+cmd.Key] = true
 									if firstKey == "" {
